@@ -9,7 +9,7 @@ from vlib.strategies import chunk_policy
 
 ID = "C05"
 LEVEL = "exploration"
-RULE = ("Hypothesis-generated lists of RSK headers (17..20 RLP fields over short/long/single-byte "
+RULE = ("1..2 block requests on one manager (the second unrelated, or re-sending headers of the first with another merkle proof / coinbase); each: Hypothesis-generated lists of RSK headers (17..20 RLP fields over short/long/single-byte "
         "forms, compressed coinbase from a drawn midstate split) with 0..10 (thorough ..20) "
         "brothers each x device plans (chunk policy, which blocks it asks brothers for, early "
         "total success, final partial/total); non-trivial = >= 2 blocks and (a brother list of "
